@@ -33,6 +33,8 @@ def _work(task):
     E = Engine(facts)
     b = facts.bodies[bid]
     t0 = time.time()
+    E.iter_classes = collections.Counter()
+    E.iteration_hook = specs.iteration_hook_for(E, b)
     try:
         if b.unsafe and b.name in CONTRACTS:
             # the documented precondition is a disjunction: one pass per disjunct
